@@ -36,6 +36,9 @@ fn lib_menu() -> Vec<&'static str> {
         "0 PRINT 0",
         "10 PRINT 1 +",
         "20 PRINT \"a\";: X = X + 1",
+        "30 REM note  ",
+        "40 DATA \"ab  ",
+        "20 PRINT \"t\"\t ",
     ]
 }
 
